@@ -3,7 +3,11 @@ package scn
 import (
 	"context"
 	"errors"
+	"io"
 	"time"
+
+	ubackoff "github.com/aperturerobotics/util/backoff"
+	"github.com/sirupsen/logrus"
 
 	"github.com/aperturerobotics/util/routine"
 	"github.com/aperturerobotics/util/zzverif/vsched"
@@ -22,6 +26,7 @@ const (
 	rRuns             // entries of the erroring routine (retry scenarios)
 	rTagsExact        // 1 if every new generation of the routine gets a fresh tag (plain RoutineContainer)
 	rCallsDone        // controller calls that have returned
+	rExitCbs          // exit-callback invocations
 	rTag0      = 20   // +id: routine tag of instance id
 	rLeft0     = 60   // +id: instance id has returned
 	rClosed0   = 100  // +k: the channel returned by controller call k has closed
@@ -592,6 +597,87 @@ func init() {
 			vsched.Settle()
 			if a := vsched.Ctr(rActive); a != 0 {
 				fail("C05.live-after-clear", "%d instance(s) still executing after ClearContext and quiescence", a)
+			}
+		},
+	})
+	eng.Register(&eng.Scenario{
+		Name: "routine-withretry", Props: []string{"C14", "C05"}, ObsNames: stdObs,
+		Doc:   "RoutineContainer / StateRoutineContainer built through the other option spellings (choice): WithRetry(constant back-off config); WithRetry(config) then WithRetry(nil); NewRoutineContainerWithLogger + WithRetry; NewStateRoutineContainerWithLogger (nil compare function) + WithRetry: the first instance returns an error; with retry configured it is run again by quiescence and exactly one instance is live, without it it is not run again until RestartRoutine; every exit is reported once to the exit callback",
+		Quick: eng.Bounds{PB: 2}, Thorough: eng.Bounds{PB: 3},
+		Body: func() {
+			how := vsched.Choose(4)
+			le := logrus.NewEntry(logrus.New())
+			le.Logger.SetOutput(io.Discard)
+			conf := &ubackoff.Backoff{BackoffKind: ubackoff.BackoffKind_BackoffKind_CONSTANT, Constant: &ubackoff.Constant{Interval: 1000}}
+			exitCb := routine.WithExitCb(func(err error) {
+				vsched.CtrAdd(rExitCbs, 1)
+				vsched.Observe(oCb, 2, errCode(err), 0)
+			})
+			body := func(ctx context.Context) error {
+				out := iUntilCancelled
+				if vsched.CtrAdd(rRuns, 1) == 1 {
+					out = iReturnErr
+				}
+				return instance(ctx, 1, out, 0)
+			}
+			retry := how != 1
+			var restart func() bool
+			var clear func() bool
+			c := context.WithValue(context.Background(), ctxKey{}, 1)
+			vsched.CtrSet(rCtxTag, 1)
+			vsched.CtrSet(rHasRt, 1)
+			switch how {
+			case 0, 1, 2:
+				opts := []routine.Option{routine.WithRetry(conf), exitCb}
+				if how == 1 {
+					opts = append(opts, routine.WithRetry(nil))
+				}
+				var k *routine.RoutineContainer
+				if how == 2 {
+					k = routine.NewRoutineContainerWithLogger(le, opts...)
+				} else {
+					k = routine.NewRoutineContainer(opts...)
+				}
+				k.SetRoutine(body)
+				k.SetContext(c, false)
+				restart, clear = k.RestartRoutine, k.ClearContext
+			case 3:
+				k := routine.NewStateRoutineContainerWithLogger[int](nil, le, routine.WithRetry(conf), exitCb)
+				k.SetStateRoutine(func(ctx context.Context, st int) error { return body(ctx) })
+				k.SetContext(c, false)
+				k.SetState(1)
+				restart, clear = k.RestartRoutine, k.ClearContext
+			}
+			vsched.Settle() // auto timers: the retry (if configured) has happened
+			runs := vsched.Ctr(rRuns)
+			live, _, _ := liveInstances(0)
+			if retry && (runs != 2 || live != 1) {
+				fail("C14.retry-lost", "the routine returned an error with retry configured (variant %d): %d run(s), %d live instance(s) at quiescence, want 2 and 1", how, runs, live)
+			}
+			if !retry && (runs != 1 || live != 0) {
+				fail("C14.extra-run", "retry disabled by WithRetry(nil): %d run(s), %d live instance(s) at quiescence, want 1 and 0", runs, live)
+			}
+			if n := vsched.Ctr(rExitCbs); n != 1 {
+				fail("C14.exit-callback", "one instance has exited but the exit callback ran %d time(s)", n)
+			}
+			if !retry {
+				if !restart() {
+					fail("C14.restart-result", "RestartRoutine on a failed routine returned false")
+				}
+				vsched.Settle()
+				if l, _, _ := liveInstances(0); vsched.Ctr(rRuns) != 2 || l != 1 {
+					fail("C14.retry-lost", "RestartRoutine did not run the failed routine again")
+				}
+			}
+			clear()
+			vsched.CtrSet(rCtxTag, 0)
+			vsched.Settle()
+			if l, _, _ := liveInstances(0); l != 0 || vsched.Ctr(rActive) != 0 {
+				fail("C05.live-after-clear", "%d live instance(s) after ClearContext and quiescence", l)
+			}
+			// (whether the exit of an instance cancelled by ClearContext is reported is not stated: 1 or 2)
+			if n := vsched.Ctr(rExitCbs); n < 1 || n > 2 {
+				fail("C14.exit-callback", "two instances have exited (the second one cancelled by ClearContext) but the exit callback ran %d time(s)", n)
 			}
 		},
 	})
